@@ -10,6 +10,7 @@ var Targets = map[string]core.Target{
 	"C10": C10{},
 	"C12": C12{},
 	"C13": C13{},
+	"C14": C14{},
 	"C15": C15{},
 	"C16": C16{},
 	"C17": C17{},
